@@ -8,7 +8,7 @@ import json
 from hypothesis import strategies as st
 
 from vlib import gen, gen_ops
-from vlib.core import Part
+from vlib.core import Part, optimized_part
 from vlib.invariants import sibling_unique, structural
 from vlib.ops import Engine, engine_known, flush_excluded
 
@@ -150,7 +150,8 @@ def collision_ops(eng):
 
 
 def run_histories(case, rec):
-    eng = Engine(case["spec"], typed=case.get("typed", False), spec2=case.get("spec2"), known=engine_known(rec))
+    eng = Engine(case["spec"], typed=case.get("typed", False), spec2=case.get("spec2"), known=engine_known(rec), flavour=case.get("flavour", "str"))
+    rec.cls("flavour=" + case.get("flavour", "str"))
     attempts = 0
     for op in case["ops"]:
         flush_excluded(eng, rec)
@@ -179,7 +180,7 @@ def run_histories(case, rec):
 
 
 def run_routes(case, rec):
-    eng = Engine(case["spec"], typed=case.get("typed", False), spec2=case.get("spec2"), known=engine_known(rec))
+    eng = Engine(case["spec"], typed=case.get("typed", False), spec2=case.get("spec2"), known=engine_known(rec), flavour=case.get("flavour", "str"))
     for op in case["ops"]:  # random prefix to reach a state
         eng.step(op, check_unchanged=False)
         problems, w = structural(eng.tree)
@@ -291,9 +292,21 @@ def run_documents(case, rec):
                 rec.fail(f"load({tname}):other-error:{type(e).__name__}", repr(e)[:200])
 
 
-def hyp_histories(tier):
+# data whose data_id is not hash-of-a-str: ints (incl. values with EQUAL hashes: -1 / -2), objects keyed by a
+# calc_data_id callback or by a Tree subclass that overrides calc_data_id()
+C03_FLAVOURS = ["str", "str", "str", "int", "int", "obj_cb", "obj_sub", "obj_sub", "tuple"]
+
+
+@st.composite
+def hyp_histories(draw, tier):
     n = 30 if tier == "quick" else 60
-    return st.one_of(gen_ops.histories(typed=False, max_ops=n), gen_ops.histories(typed=True, max_ops=n))
+    flavour = draw(st.sampled_from(C03_FLAVOURS))
+    kinds = None
+    if flavour != "str":
+        kinds = [k for k in draw(st.sampled_from([gen_ops.PROFILES["rekey"], gen_ops.PROFILES["clones"], gen_ops.PROFILES["all"], gen_ops.PROFILES["structure"]])) if k != "rename"] + ["set_data"]
+    case = draw(gen_ops.histories(typed=draw(st.booleans()), max_ops=n, kinds=kinds, fresh=flavour != "str"))
+    case["flavour"] = flavour
+    return case
 
 
 @st.composite
@@ -301,6 +314,9 @@ def hyp_routes(draw, tier):
     typed = draw(st.sampled_from([False, False, True]))
     case = draw(gen_ops.histories(typed=typed, max_ops=8, max_nodes=14, kinds=["add", "add_node", "copy_to", "move", "set_data", "remove"]))
     case["pick"] = draw(st.integers(0, 50))
+    if draw(st.sampled_from([0, 0, 1])):
+        case["flavour"] = draw(st.sampled_from(["int", "obj_sub", "obj_cb"]))
+        return case
     if draw(st.sampled_from([0, 0, 0, 1])):
         # directed multi-step: re-key a clone group (with_clones=True) onto a data_id that other nodes already
         # carry elsewhere (the groups merge), afterwards every member of the merged group must still block its parent
@@ -376,4 +392,5 @@ PARTS = [
     Part("histories", run_histories, strategy=hyp_histories, n={"quick": 600, "thorough": 100000}),
     Part("routes", run_routes, strategy=hyp_routes, n={"quick": 600, "thorough": 100000}),
     Part("documents", run_documents, strategy=hyp_documents, n={"quick": 200, "thorough": 30000}),
+    optimized_part("C03", ['histories', 'routes']),
 ]
